@@ -7,7 +7,7 @@ import leafdsl as L
 from props import C02
 
 ID = "C04"
-FACTS = ["Bool", "Leaf"]
+FACTS = ["Bool", "Leaf", "LeafSrc"]
 COQ_HEADER = "From SPV Require Import CorrDefs.CorrC04."
 COQ_CASE_TYPE = "case"
 RULE = ("a valid command line from C02's generator (1-4 fields over the CLI grammar, some without default = required), then exactly one "
